@@ -31,6 +31,7 @@ type status struct {
 	OrderedRanges []string `json:"ordered_ranges"`
 	SyncShim      []string `json:"sync_shim_files"`
 	Roots         []string `json:"package_roots"`
+	Pools         []string `json:"pools"`
 	Missing       []string `json:"missing"`
 }
 
@@ -127,11 +128,6 @@ func verifKeys[T any](m map[string]T, site int) []string {
 	})
 
 	// ---- 3. package roots: addresses of all package-level variables + typed pool accessors
-	extra := map[string]string{
-		"pkg/parser":                   "func VerifParserPool() *sync.Pool { return &parserPool }\n",
-		"pkg/engine/runtime":           "func VerifCtxPool() *sync.Pool { return &ctxPool }\n",
-		"pkg/inimpl/guancecloud/input": "func VerifPointPool() *sync.Pool { return &pointPool }\nfunc VerifMetaPool() *sync.Pool { return &metaPool }\n",
-	}
 	pkgDirs := []string{"pkg/ast", "pkg/token", "pkg/errchain", "pkg/parser", "pkg/engine", "pkg/engine/runtime", "pkg/engine/runtimev2", "pkg/inimpl/guancecloud/funcs", "pkg/inimpl/guancecloud/input"}
 	for _, dir := range pkgDirs {
 		fset := token.NewFileSet()
@@ -144,7 +140,18 @@ func verifKeys[T any](m map[string]T, site int) []string {
 			if strings.HasSuffix(pname, "_test") {
 				continue
 			}
-			var names []string
+			var names, pools []string
+			isPool := func(e goast.Expr) bool {
+				if cl, ok := e.(*goast.CompositeLit); ok {
+					e = cl.Type
+				}
+				sel, ok := e.(*goast.SelectorExpr)
+				if !ok {
+					return false
+				}
+				x, ok := sel.X.(*goast.Ident)
+				return ok && x.Name == "sync" && sel.Sel.Name == "Pool"
+			}
 			for _, f := range pkg.Files {
 				for _, d := range f.Decls {
 					gd, ok := d.(*goast.GenDecl)
@@ -152,20 +159,30 @@ func verifKeys[T any](m map[string]T, site int) []string {
 						continue
 					}
 					for _, sp := range gd.Specs {
-						for _, n := range sp.(*goast.ValueSpec).Names {
-							if n.Name != "_" {
-								names = append(names, n.Name)
+						vs := sp.(*goast.ValueSpec)
+						for i, n := range vs.Names {
+							if n.Name == "_" {
+								continue
+							}
+							names = append(names, n.Name)
+							if (vs.Type != nil && isPool(vs.Type)) || (i < len(vs.Values) && isPool(vs.Values[i])) {
+								pools = append(pools, n.Name)
 							}
 						}
 					}
 				}
 			}
 			sort.Strings(names)
+			sort.Strings(pools)
 			var b strings.Builder
 			fmt.Fprintf(&b, "//go:build verif\n\npackage %s\n\n", pname)
-			if ex, ok := extra[dir]; ok {
-				b.WriteString("import sync \"github.com/GuanceCloud/platypus/pkg/verifsync\"\n\n" + ex + "\n")
+			b.WriteString("import verifsyncpkg \"github.com/GuanceCloud/platypus/pkg/verifsync\"\n\n")
+			b.WriteString("// VerifPools returns every package-level sync.Pool (discovered by parsing the package).\nfunc VerifPools() map[string]*verifsyncpkg.Pool {\n\treturn map[string]*verifsyncpkg.Pool{\n")
+			for _, n := range pools {
+				fmt.Fprintf(&b, "\t\t%q: &%s,\n", dir+"."+n, n)
+				st.Pools = append(st.Pools, dir+"."+n)
 			}
+			b.WriteString("\t}\n}\n\n")
 			b.WriteString("// VerifRoots returns the address of every package-level variable.\nfunc VerifRoots() map[string]any {\n\treturn map[string]any{\n")
 			for _, n := range names {
 				fmt.Fprintf(&b, "\t\t%q: &%s,\n", dir+"."+n, n)
